@@ -7,13 +7,13 @@ use std::collections::BTreeMap;
 
 pub fn monitor_c07() -> Monitor {
   Monitor { id: "C07",
-    rule: "operands are canonical (packed) MOCs built from bit-sets of deepest cells. Exhaustive universes: U1 = base cell 5 at depth 1 (16 sets, all pairs), U2 = base cells {0, 11} at depth 1 (256 sets, all 65 536 pairs, operands also re-expressed with a smaller depth_max when possible), U3 = base cell 5 at depth 2 (65 536 sets: all for not; 10^6 random pairs in quick, all 2^32 pairs in thorough). Random: pairs of trees of depth_max 0..5 (different for the two operands), 1-12 base cells, plus degenerate shapes (empty, full sky, single deepest cell, first/last cell of the sky). Every result is compared entry-for-entry with the canonical packing of the model's result (=> well formed, depth_max = max, set equality, canonical); the algebraic identities are checked with BMOC::equals. Non-trivial = pair with both operands non-empty and not full sky and (in random) different depth_max or cells of mixed depths.",
+    rule: "operands are canonical (packed) MOCs built from bit-sets of deepest cells. Exhaustive universes: U1 = base cell 5 at depth 1 (16 sets, all pairs), U2 = base cells {0, 11} at depth 1 (256 sets, all 65 536 pairs, operands also re-expressed with a smaller depth_max when possible), U3 = base cell 5 at depth 2 (65 536 sets: all for not; 10^6 random pairs in quick, all 2^32 pairs in thorough). Random: pairs of trees of depth_max 0..5 (different for the two operands), 1-12 base cells, plus degenerate shapes (empty, full sky, single deepest cell, first/last cell of the sky). Every result is compared entry-for-entry with the canonical packing of the model's result (=> well formed, depth_max = max, set equality, canonical); the algebraic identities are checked with BMOC::equals. Non-trivial = pair with both operands non-empty and not full sky and (in random) different depth_max or cells of mixed depths. Plus SPARSE DEEP operands (60 000 pairs quick / 10^6 thorough): a few cells spread over depths 0..29 (depth_max 12..29), the deep cells of one operand mostly inside coarse cells of the other one (depth gaps of 16..29 levels), judged against an interval model over the deepest cells (pointwise table on intervals, and for MOCs the canonical decomposition of the intervals into largest aligned cells).",
     assumptions: &["model = bit-set of deepest cells; canonical packing computed by the harness (bm.rs)"],
     run: |c, x| run(c, x, true), replay }
 }
 pub fn monitor_c08() -> Monitor {
   Monitor { id: "C08",
-    rule: "operands are valid BMOCs with arbitrary flags. Exhaustive universes: V1 = base cell 5, max depth 1: the 84 trees (root absent/partial/full or split into 4 children each absent/partial/full), all 7 056 pairs; V2 = base cells {0, 11}: 7 056 trees, 10^6 random pairs (quick) / all 4.98e7 pairs (thorough). Random: trees of depth_max 0..4 with mixed flags and depths (coarse partial over fine full and vice versa), 1-12 base cells, different depth_max. Each result is mapped to the model (deepest cell -> absent/partial/full) and compared pointwise with the documented tables; it must also be well formed. Non-trivial = pair in which some deepest cell sees a partial cell of one operand against a non-absent cell of the other, or cells of different depths overlap.",
+    rule: "operands are valid BMOCs with arbitrary flags. Exhaustive universes: V1 = base cell 5, max depth 1: the 84 trees (root absent/partial/full or split into 4 children each absent/partial/full), all 7 056 pairs; V2 = base cells {0, 11}: 7 056 trees, 10^6 random pairs (quick) / all 4.98e7 pairs (thorough). Random: trees of depth_max 0..4 with mixed flags and depths (coarse partial over fine full and vice versa), 1-12 base cells, different depth_max. Each result is mapped to the model (deepest cell -> absent/partial/full) and compared pointwise with the documented tables; it must also be well formed. Non-trivial = pair in which some deepest cell sees a partial cell of one operand against a non-absent cell of the other, or cells of different depths overlap. Plus SPARSE DEEP operands (60 000 pairs quick / 10^6 thorough): a few cells spread over depths 0..29 (depth_max 12..29), the deep cells of one operand mostly inside coarse cells of the other one (depth gaps of 16..29 levels), judged against an interval model over the deepest cells (pointwise table on intervals, and for MOCs the canonical decomposition of the intervals into largest aligned cells).",
     assumptions: &["three-valued tables taken from the operators' documentation: not 0<->2, 1->1; and = min; or = max; xor = other operand if one absent, absent if both full, partial otherwise"],
     run: |c, x| run(c, x, false), replay }
 }
@@ -58,6 +58,58 @@ pub fn judge(ctx: &mut Ctx, op: Op, dma: u8, ca: &[CellT], dmb: u8, cb: &[CellT]
     let canon = canonical_moc(dm, &want);
     if cells != canon { ctx.violation(&format!("{}-result-not-in-canonical-packed-form", op.name()), mk_case(op, dma, ca, dmb, cb, moc), format!("got {} canonical {}", fmt_cells(&cells), fmt_cells(&canon))); }
   }
+}
+
+/// judge one operator application on operands too deep to flatten, against the interval model
+pub fn judge_sparse(ctx: &mut Ctx, op: Op, dma: u8, ca: &[CellT], dmb: u8, cb: &[CellT], moc: bool) {
+  let a = to_bmoc(dma, ca); let b = to_bmoc(dmb, cb);
+  let dm = if op == Op::Not { dma } else { dma.max(dmb) };
+  let case = || mk_case(op, dma, ca, dmb, cb, moc).b("sparse", true);
+  ctx.eval();
+  let res = match apply(op, &a, &b) { Ok(r) => r, Err(p) => { ctx.violation(&format!("{}-panics-on-valid-operands", op.name()), case(), p); return; } };
+  if res.get_depth_max() != dm { ctx.violation(&format!("{}-result-depth_max-not-the-max", op.name()), case(), format!("{} != {}", res.get_depth_max(), dm)); return; }
+  let cells = match walk_opt(&res, 1 << 12, false) { Ok(_) => cells_of(&res), Err(e) => { ctx.violation(&format!("{}-result-not-well-formed", op.name()), case(), e); return; } };
+  let n = 12u64 << (2 * dm);
+  let scale = |d: u8, c: &[CellT]| -> Vec<Iv> { to_intervals(d, c).into_iter().map(|(x, y, s)| (x << (2 * (dm - d)), y << (2 * (dm - d)), s)).collect() };
+  let (ia, ib) = (scale(dma, ca), if op == Op::Not { Vec::new() } else { scale(dmb, cb) });
+  let want = combine_intervals(n, &ia, &ib, &|x, y| model_op(op, x, y));
+  let got = to_intervals(dm, &cells);
+  if got != want {
+    let st = |x: u8| ["absent", "partial", "full"][x as usize];
+    let k = got.iter().zip(want.iter()).position(|(g, w)| g != w).unwrap_or(got.len().min(want.len()));
+    ctx.violation(&format!("{}-differs-from-the-{}", op.name(), if moc { "set-operation" } else { "three-valued-table" }), case(), format!("interval model at depth {}: first difference at interval {}: got {:?} want {:?} ({} / {} intervals); states: 1={} 2={}", dm, k, got.get(k), want.get(k), got.len(), want.len(), st(1), st(2)));
+    return;
+  }
+  if moc { ctx.eval(); let canon = canonical_from_intervals(dm, &want); if cells != canon { ctx.violation(&format!("{}-result-not-in-canonical-packed-form", op.name()), case(), format!("got {} canonical {}", fmt_cells(&cells), fmt_cells(&canon))); } }
+  let gap = { let da = ca.iter().map(|c| c.0).min().unwrap_or(0); let db = cb.iter().map(|c| c.0).max().unwrap_or(0); let da2 = cb.iter().map(|c| c.0).min().unwrap_or(0); let db2 = ca.iter().map(|c| c.0).max().unwrap_or(0); (db.saturating_sub(da)).max(db2.saturating_sub(da2)) };
+  ctx.hard(&format!("sparse-deep-operands:{}:depth-gap>={}", op.name(), if gap >= 16 { 16 } else if gap >= 8 { 8 } else { 0 }), &[dma as u64, dmb as u64, ca.len() as u64, cb.len() as u64, ca.iter().chain(cb.iter()).fold(0u64, |acc, c| acc.wrapping_mul(1000003).wrapping_add(c.1 ^ ((c.0 as u64) << 58)))]);
+}
+
+/// operands with few cells spread over depths 0..29: a coarse part (depth <= 6) and a deep part (many of whose cells lie inside coarse
+/// cells of the OTHER operand, 16 to 29 levels below them); valid BMOCs (z-ordered, non-overlapping), flags mixed unless `moc`
+pub fn gen_sparse_pair(rng: &mut Rng, moc: bool) -> (u8, Vec<CellT>, u8, Vec<CellT>) {
+  let mk = |rng: &mut Rng, other_coarse: &[(u8, u64)]| -> (u8, Vec<CellT>, Vec<(u8, u64)>) {
+    let dm = *rng.pick(&[29u8, 29, 24, 20, 16, 12]);
+    let mut cells: Vec<CellT> = Vec::new(); let mut coarse = Vec::new();
+    for _ in 0..1 + rng.below(4) { let d = rng.below(7.min(dm as u64 + 1)) as u8; let h = rng.below(12u64 << (2 * d)); cells.push((d, h, moc || rng.coin())); coarse.push((d, h)); }
+    for _ in 0..rng.below(8) { // deep cells, preferably inside a coarse cell of the other operand
+      let d = (dm as u64 - rng.below(6.min(dm as u64 + 1))) as u8;
+      let h = if !other_coarse.is_empty() && rng.below(4) != 0 { let (cd, chh) = *rng.pick(other_coarse); if cd > d { continue; } let s = 2 * (d - cd) as u32; (chh << s) | (rng.next() & ((1u64 << s) - 1).max(0)) & ((1u64 << s) - 1) } else { rng.below(12u64 << (2 * d)) };
+      cells.push((d, h, moc || rng.coin()));
+      if rng.below(3) == 0 && h % 4 != 3 { cells.push((d, h + 1, moc || rng.coin())); }
+    }
+    // make it a valid BMOC: sort by start at depth dm, drop overlapping entries
+    cells.sort_by_key(|&(d, h, _)| (h << (2 * (dm - d)), d));
+    let mut v: Vec<CellT> = Vec::new(); let mut end = 0u64;
+    for &(d, h, f) in cells.iter() { let s = 2 * (dm - d) as u32; let (a, e) = (h << s, (h + 1) << s); if !v.is_empty() && a < end { continue; } v.push((d, h, f)); end = e; }
+    if moc { let iv = to_intervals(dm, &v); v = canonical_from_intervals(dm, &iv); }
+    let coarse: Vec<(u8, u64)> = v.iter().filter(|c| c.0 <= 6).map(|c| (c.0, c.1)).collect();
+    let _ = coarse.len();
+    (dm, v, coarse)
+  };
+  let (dma, ca, coarse_a) = mk(rng, &[]);
+  let (dmb, cb, _) = mk(rng, &coarse_a);
+  if rng.coin() { (dma, ca, dmb, cb) } else { (dmb, cb, dma, ca) }
 }
 
 /// algebraic identities through BMOC::equals (meaningful because canonicity is judged above)
@@ -176,6 +228,17 @@ fn run(ctx: &mut Ctx, extra: &mut BTreeMap<String, String>, moc: bool) {
       else { c.bump("plain-random-pairs"); }
     }
   });
+  // operands that cannot be flattened: few cells spread over depths 0..29 (depth gaps of 16..29 levels between the operands' cells),
+  // judged against the interval model
+  let n_sparse = if thorough { if small { 10_000 } else { 1_000_000 } } else if small { 2_000 } else { 60_000 };
+  run_sharded(ctx, 16, |c, k| {
+    let mut rng = Rng::new(seed, 750 + k as u64);
+    for _ in 0..n_sparse / 16 {
+      let (dma, ca, dmb, cb) = gen_sparse_pair(&mut rng, moc);
+      judge_sparse(c, Op::Not, dma, &ca, dmb, &[], moc);
+      for &op in ops.iter() { judge_sparse(c, op, dma, &ca, dmb, &cb, moc); }
+    }
+  });
 }
 
 /// U3: base cell 5 at depth 2, 16 deepest cells. Fast path: results compared as raw entries with the precomputed canonical BMOC of the expected mask.
@@ -209,7 +272,7 @@ fn replay(ctx: &mut Ctx, c: &Case) {
   let (dma, dmb) = (c.gu("dma") as u8, c.gu("dmb") as u8);
   let (ca, cb) = (cells_from_str(c.get("a").unwrap_or("-")), cells_from_str(c.get("b").unwrap_or("-")));
   match c.mon() {
-    "op" => { let op = match c.get("op").unwrap_or("") { "not" => Op::Not, "and" => Op::And, "or" => Op::Or, _ => Op::Xor }; judge(ctx, op, dma, &ca, dmb, &cb, c.gb("moc")); }
+    "op" => { let op = match c.get("op").unwrap_or("") { "not" => Op::Not, "and" => Op::And, "or" => Op::Or, _ => Op::Xor }; if c.get("sparse").is_some() { judge_sparse(ctx, op, dma, &ca, dmb, &cb, c.gb("moc")); } else { judge(ctx, op, dma, &ca, dmb, &cb, c.gb("moc")); } }
     "ident" => identities(ctx, dma, &ca, dmb, &cb),
     m => ctx.inconclusive(&format!("unknown replay monitor {}", m)),
   }
